@@ -101,6 +101,7 @@ func nontrivial(c *fw.Case, key string) {
 
 type storedKey struct {
 	key      string // stored flow key (EPHash bytes)
+	raw      string // key as parsed from the packet (before any reversal)
 	reverted bool
 	dir      capturetypes.Direction
 	parsedSP uint16
@@ -119,6 +120,7 @@ func stored(b []byte, v6 bool) storedKey {
 		}
 		s.parsedSP = uint16(h[16])<<8 | uint16(h[17])
 		s.parsedDP = uint16(h[34])<<8 | uint16(h[35])
+		s.raw = string(h[:])
 		s.dir = capturetypes.ClassifyPacketDirectionV6(h, aux)
 		if s.dir == capturetypes.DirectionReverts {
 			r := h.Reverse()
@@ -135,6 +137,7 @@ func stored(b []byte, v6 bool) storedKey {
 	}
 	s.parsedSP = uint16(h[4])<<8 | uint16(h[5])
 	s.parsedDP = uint16(h[10])<<8 | uint16(h[11])
+	s.raw = string(h[:])
 	s.dir = capturetypes.ClassifyPacketDirectionV4(h, aux)
 	if s.dir == capturetypes.DirectionReverts {
 		r := h.Reverse()
@@ -352,20 +355,20 @@ func runTCPFlags(c *fw.Case, sub int) {
 						// the sender of a SYN is the requester, whoever it is
 						c.Count("tcp_syn_checked", 2)
 						nontrivial(c, fam(v6)+"|tcp|syn|"+pk)
-						if a, b := srcDst(s1[f].key); a != string(client) || b != string(server) {
+						if a, b := srcDst(s1[f].key); a != string(client) || b != string(server) || s1[f].key != s1[f].raw {
 							c.Violatef("handshake|"+fam(v6)+"_syn|"+pk, "SYN (flags 0x%02x) %s:%d > %s:%d stored as src %s dst %s (key % x, dir=%d)", f, capfn.AddrString(client), p.cp, capfn.AddrString(server), p.sp, capfn.AddrString([]byte(a)), capfn.AddrString([]byte(b)), s1[f].key, s1[f].dir)
 						}
-						if a, b := srcDst(s2[f].key); a != string(server) || b != string(client) {
+						if a, b := srcDst(s2[f].key); a != string(server) || b != string(client) || s2[f].key != s2[f].raw {
 							c.Violatef("handshake|"+fam(v6)+"_syn|"+pk, "SYN (flags 0x%02x) %s:%d > %s:%d stored as src %s dst %s (key % x, dir=%d)", f, capfn.AddrString(server), p.sp, capfn.AddrString(client), p.cp, capfn.AddrString([]byte(a)), capfn.AddrString([]byte(b)), s2[f].key, s2[f].dir)
 						}
 					case isSynAck(fb):
 						// the sender of a SYN-ACK is the responder
 						c.Count("tcp_synack_checked", 2)
 						nontrivial(c, fam(v6)+"|tcp|synack|"+pk)
-						if a, b := srcDst(s2[f].key); a != string(client) || b != string(server) {
+						if a, b := srcDst(s2[f].key); a != string(client) || b != string(server) || s2[f].key != s1[0].raw {
 							c.Violatef("handshake|"+fam(v6)+"_synack|"+pk, "SYN-ACK (flags 0x%02x) %s:%d > %s:%d stored as src %s dst %s (key % x, dir=%d), expected requester %s as source", f, capfn.AddrString(server), p.sp, capfn.AddrString(client), p.cp, capfn.AddrString([]byte(a)), capfn.AddrString([]byte(b)), s2[f].key, s2[f].dir, capfn.AddrString(client))
 						}
-						if a, b := srcDst(s1[f].key); a != string(server) || b != string(client) {
+						if a, b := srcDst(s1[f].key); a != string(server) || b != string(client) || s1[f].key != s2[0].raw {
 							c.Violatef("handshake|"+fam(v6)+"_synack|"+pk, "SYN-ACK (flags 0x%02x) %s:%d > %s:%d stored as src %s dst %s (key % x, dir=%d), expected requester %s as source", f, capfn.AddrString(client), p.cp, capfn.AddrString(server), p.sp, capfn.AddrString([]byte(a)), capfn.AddrString([]byte(b)), s1[f].key, s1[f].dir, capfn.AddrString(server))
 						}
 					}
